@@ -85,7 +85,9 @@ FNAMES = ["usr/bin/tool", "usr/share/doc/pkg/copyright", "etc/pkg.conf", "file w
           "boot/.hidden", "usr/bin/tool2", "usr/share/odd\x0cname", "usr/share/ls\u2028name",
           "opt/nel\x85x"]
 DEFECTS = [None] * 22 + ["no_info", "no_control", "no_data",
-           "two_control", "two_data", "no_control_no_data", "two_data_raw"]
+           "two_control", "two_data", "no_control_no_data", "two_data_raw",
+           # the second candidate is an EMPTY member placed after all required parts
+           "two_data_empty", "two_control_empty"]
 
 
 def _bytes(rng, n):
@@ -101,7 +103,10 @@ def generate(seed, run, tier):
     rq = stream_rng(seed, ID, run, "sched")
     fields = [["Package", rw.choice(["pkg", "lib-x1", "a+b"])], ["Version", rw.choice(
         ["1.0-1", "2:0.1~rc1"])], ["Architecture", rw.choice(["all", "amd64"])],
-        ["Maintainer", "Ünï Code <u@example.org>"], ["Description", "short text"]]
+        ["Maintainer", "Ünï Code <u@example.org>"],
+        # characters str.splitlines() breaks at are ordinary characters of a control value
+        ["Description", rw.choice(["short text"] * 4 + ["form\x0cfeed text", "nel\x85x",
+                                                        "ls\u2028 x", "fs\x1c gs\x1d x"])]]
     if rw.random() < 0.5:
         fields.insert(rw.randrange(len(fields)), ["Depends", "libc6 (>= 2.3), x | y"])
     scripts = {}
@@ -261,6 +266,10 @@ def build(world):
             members.append(("data.tar.gz", _compress(_tar(dentries, fmt), "gz")))
         else:
             members.append(("data.tar", _tar(dentries, fmt)))
+    elif d == "two_data_empty":
+        members.append(("data.tar.gz" if world["dcomp"] != "gz" else "data.tar", b""))
+    elif d == "two_control_empty":
+        members.append(("control.tar.gz" if world["ccomp"] != "gz" else "control.tar", b""))
     if world.get("extra"):
         members.append((world["extra"], b"extra member\n"))
     blob = arwriter.build([{"name": n, "data": b, "mtime": 1342943816, "style": "bsd"}
